@@ -6,6 +6,7 @@ package main
 import (
 	"fmt"
 	"math/rand"
+	"strings"
 )
 
 func p32(v uint32) *uint32 { return &v }
@@ -341,6 +342,59 @@ func structuredLayouts() []layout {
 		}
 		// $Number$ video with $Time$ audio that has a hole
 		add(one("number-video-time-audio-gap", mkTimeAudio(1536, 1, 3), videoSet(vrep("V1", 1000, 3, 40, 50, "trex"))))
+	}
+	// --- high timescales (1 MHz .. 10 MHz) and near-equal durations: representations that are looped
+	// with the reference duration must have EXACTLY that duration, in every timescale
+	{
+		hi := func(id string, ts uint32, frameTicks uint32, extraLast uint32) repSpec {
+			r := repSpec{ID: id, Timescale: ts, TrexDur: frameTicks, Segs: mkSegs(segsOpt{n: 3, startNr: 1, sampleD: frameTicks, count: 50, enc: "trun"})}
+			if extraLast != 0 {
+				last := &r.Segs[2]
+				last.Durs = append([]uint32{}, last.Durs...)
+				last.Durs[len(last.Durs)-1] += extraLast
+			}
+			return r
+		}
+		ref := func() repSpec { return vrep("V1", 1000, 3, 40, 50, "trex") } // 6 s
+		for _, c := range []struct {
+			name  string
+			ts    uint32
+			frame uint32
+			extra uint32
+		}{
+			{"hi-ts-9mhz-equal", 9000000, 360000, 0}, {"hi-ts-9mhz-one-tick", 9000000, 360000, 1}, {"hi-ts-9mhz-below-1us", 9000000, 360000, 5},
+			{"hi-ts-9mhz-1us", 9000000, 360000, 9}, {"hi-ts-9mhz-1ms", 9000000, 360000, 9000},
+			{"hi-ts-10mhz-equal", 10000000, 400000, 0}, {"hi-ts-10mhz-one-tick", 10000000, 400000, 1}, {"hi-ts-10mhz-9-ticks", 10000000, 400000, 9},
+			{"hi-ts-10mhz-1us", 10000000, 400000, 10}, {"hi-ts-1mhz-equal", 1000000, 40000, 0}, {"hi-ts-1mhz-one-tick", 1000000, 40000, 1},
+			{"hi-ts-90k-one-tick", 90000, 3600, 1},
+		} {
+			add(one(c.name, videoSet(ref(), hi("V2", c.ts, c.frame, c.extra))))
+			t := hi("T1", c.ts, c.frame, c.extra)
+			add(one(c.name+"-text", videoSet(ref()), textSet(t)))
+		}
+		// the high-timescale representation is the reference
+		add(one("hi-ts-reference-10mhz", videoSet(hi("V1", 10000000, 400000, 0), vrep("V2", 1000, 3, 40, 50, "trex"))))
+		add(one("hi-ts-reference-10mhz-one-tick", videoSet(hi("V1", 10000000, 400000, 0), hi("V2", 10000000, 400000, 1))))
+	}
+	// --- names: representation ids and asset paths outside ASCII / Latin-1, with spaces, dots, very long
+	for _, c := range []struct{ name, asset, vid, aid string }{
+		{"id-cyrillic", "", "\u0432\u0438\u0434\u0435\u043e300", "\u0437\u0432\u0443\u043a48"},
+		{"id-cjk", "", "\u6620\u50cf1", "\u97f3\u58f01"},
+		{"id-latin1", "", "vid\u00e9o", "s\u00f6n"},
+		{"id-emoji", "", "v\U0001F3AC", "a\U0001F50A"},
+		{"id-space", "", "V 300", "A 48"},
+		{"id-dots", "", "v.300.main", "a.48"},
+		{"id-plus-parens", "", "V+(300)", "A[48]"},
+		{"id-long", "", "V" + strings.Repeat("0123456789", 20), "A" + strings.Repeat("abcdefghij", 20)},
+		{"asset-path-cyrillic", "x/\u0430\u0441\u0441\u0435\u0442/\u043e\u0434\u0438\u043d", "V1", "A1"},
+		{"asset-path-space-dots", "x/my asset v1.2", "V1", "A1"},
+	} {
+		v, a := vrep(c.vid, 1000, 3, 40, 50, "trex"), arep(c.aid, 3, 62)
+		l := one(c.name, audioSet(a), videoSet(v))
+		if c.asset != "" {
+			l.Asset = c.asset
+		}
+		add(l)
 	}
 	// --- thumbnails
 	mkThumbs := func(n int, first uint32) repSpec {
